@@ -28,6 +28,7 @@ theorem missingFrom_nil_iff (kind owner : String) (names within : List String) :
 /-- **No dangling reference is accepted**: a closed design resolves every name it uses. -/
 theorem accepted_closed (d : Design) (h : closed d = true) :
     (∀ e ∈ d.httpErrors, e ∈ d.errors) ∧ (∀ x ∈ d.apiSchemes, x ∈ d.schemes) ∧
+    (∀ av ∈ d.attrViews, av.view ∈ av.views) ∧
     ∀ s ∈ d.services,
       (∀ e ∈ s.httpErrors, e ∈ s.errors ++ d.errors) ∧ (∀ x ∈ s.schemes, x ∈ d.schemes) ∧
       ∀ m ∈ s.methods,
@@ -40,8 +41,15 @@ theorem accepted_closed (d : Design) (h : closed d = true) :
   rw [List.isEmpty_iff] at h
   unfold dangling at h
   simp only [List.append_eq_nil_iff, List.flatMap_eq_nil_iff] at h
-  obtain ⟨⟨h1, h2⟩, h3⟩ := h
-  refine ⟨(missingFrom_nil_iff ..).mp h1, (missingFrom_nil_iff ..).mp h2, ?_⟩
+  obtain ⟨⟨⟨h1, h2⟩, h3⟩, h4⟩ := h
+  refine ⟨(missingFrom_nil_iff ..).mp h1, (missingFrom_nil_iff ..).mp h2, ?_, ?_⟩
+  · intro av hav
+    have := h4 av hav
+    unfold danglingAttrView at this
+    by_cases hc : av.views.contains av.view = true
+    · simpa using hc
+    · simp [hc] at this
+      exact this
   intro s hs
   have hsv := h3 s hs
   unfold danglingService at hsv
@@ -93,9 +101,11 @@ theorem dsl_surface_seen : 100 ≤ dslFuncs.length := by decide
 
 /-! ### Non-vacuity -/
 def m0 : Method := ⟨"show", ["id", "token"], ["name"], ["not_found"], ["id"], ["token"], [], [], ["name"], ["not_found", "busy"], ["jwt"], some "tiny", ["default", "tiny"]⟩
-def d0 : Design := ⟨["jwt"], ["api_down"], ["api_down"], [], [⟨"svc", ["busy"], ["busy"], [], [m0]⟩]⟩
+def d0 : Design := ⟨["jwt"], ["api_down"], ["api_down"], [], [⟨"svc", ["busy"], ["busy"], [], [m0]⟩], [⟨"Item.owner", "tiny", ["default", "tiny"]⟩]⟩
 example : closed d0 = true := by decide
 example : dangling { d0 with schemes := [] } = [⟨"scheme", "svc.show", "jwt"⟩] := by decide
+example : dangling { d0 with attrViews := [⟨"Item.owner", "tiny", ["default", "tiny"]⟩, ⟨"Item.other", "nope", ["default", "tiny"]⟩] }
+    = [⟨"attribute-view", "Item.other", "nope"⟩] := by decide
 example : dangling { d0 with services := [⟨"svc", [], [], [], [{ m0 with headers := ["zz"] }]⟩] }
     = [⟨"header", "svc.show", "zz"⟩, ⟨"error-response", "svc.show", "busy"⟩] := by decide
 
